@@ -13,15 +13,31 @@ static struct nv_tuple_f64_f64 nv_param_lambda(void) { struct nv_tuple_f64_f64 r
 static int64_t nv_param_max_outer_iters(void) { return nv_max_outers; }
 #define NV_AL_PARAMS_OK (NV_SOLVER_PARAMS_OK && 10 <= nv_max_outers && nv_max_outers <= 1000 && nv_miu_max > 0.0 && nv_gamma > 1.0 && 0.0 < nv_tau && nv_tau < 1.0)
 
-/* ghost: the penalty parameter stays positive and the inequality multipliers non-negative (ro starts in [1e-6, 10] by
- * std::clamp in make_ro1 and is only multiplied by gamma > 1; miu is clamped by .max(0.0)) -- tracked as ghost flags set
- * by the stubs below, which are the contracts of those two Eigen/clamp one-liners */
+/* ---- preconditions of ::make_criterion, established by the solver loop -------------------------------------------------------
+ * ro > 0: ro starts in [1e-6, 10] (PROVED on the extracted make_ro1 with its default bounds, specs/C05/kkt.py:
+ *   make_ro1/range_of_the_initial_penalty; the call site is checked to use the defaults) and is only
+ *   multiplied by gamma > 1.  `ro = gamma * ro` prints as the UNINTERPRETED product NV_FMUL; the one fact about it that is needed
+ *   is the sign rule  a > 0 && b > 0 ==> a * b > 0  (proved over the reals: SMT lemma `penalty parameter stays positive`; in IEEE
+ *   arithmetic a product with a factor > 1 cannot underflow to 0) -- stated here for every product of the target.
+ * every miu_i >= 0: ghost flag nv_miu_nonneg, maintained by the sign analysis of spec.py (miu_hook) over the statements that can
+ *   write the vector handed to make_criterion: `make_full_vector<scalar_t>(n, 0.0)` and `miu.array() = (..).max(0.0).min(miu_max)`. */
+static double nv_fmul_signed(double a, double b)
+{ double r = __CPROVER_uninterpreted_fmul(a, b); __CPROVER_assume(!(a > 0.0 && b > 0.0) || r > 0.0); return r; }
+#undef NV_FMUL
+#define NV_FMUL(a, b) nv_fmul_signed(a, b)
+_Bool nv_miu_nonneg;
 static double nv_make_ro1(const struct nv_state* s) { double r = nv_nondet_double(); __CPROVER_assume(r >= 1e-6 && r <= 10.0); return r; }
-/* ::make_criterion(state, miu, ro) = max(|h|_inf, |max(g, -miu/ro)|_inf): for miu >= 0 and ro > 0 it is >= the violation
- * max(|h|_inf, |max(0,g)|_inf) (elementwise: g >= 0 -> max(g, -miu/ro) = g; g < 0 -> max(0,g) = 0), checked as the SMT
- * lemma `criterion dominates the violation` in spec.py; for a valid state it is not NaN */
+/* ::make_criterion(state, miu, ro) = max(|h|_inf, |max(g, -miu/ro)|_inf).  PROVED on the extracted function over the reals, any
+ * number of constraints (specs/C05/kkt.py: make_criterion/criterion_dominates_equality, criterion_dominates_inequality,
+ * criterion_nonnegative, lift):  ro > 0 and every miu_i >= 0  ==>  criterion >= max(|h|_inf, |max(0,g)|_inf) = feas(state).
+ * The two preconditions are OBLIGED here at every call site; the clause is used for valid (finite) states only: over the doubles
+ * a NaN constraint value makes the comparison false. */
 static double nv_make_criterion(const struct nv_state* s, const struct nv_opaque* miu, double ro)
-{ double c = nv_nondet_double(); if (s->valid) __CPROVER_assume(c >= s->feas); return c; }
+{
+  __CPROVER_assert(ro > 0.0, "make_criterion_precondition: ro > 0");
+  __CPROVER_assert(nv_miu_nonneg != 0, "make_criterion_precondition: every inequality multiplier miu_i >= 0");
+  double c = nv_nondet_double(); if (s->valid) __CPROVER_assume(c >= s->feas); return c;
+}
 /* solver->minimize(penalty_function, x0): some state of the penalty function (arbitrary, consistent evaluation) */
 static struct nv_state nv_inner_minimize(void)
 {
@@ -44,15 +60,17 @@ static _Bool nv_state_update_at(struct nv_state* b, const struct nv_state* c)
 
 #define NV_CONTRACT_al_do_minimize \
 __CPROVER_requires(NV_AL_PARAMS_OK && nv_ver_counter == 0 && __CPROVER_is_fresh(self, sizeof(*self))) \
-__CPROVER_assigns(nv_ver_counter) \
+__CPROVER_assigns(nv_ver_counter, nv_miu_nonneg) \
 __CPROVER_ensures(NV_STATUS_OK(NV_RET.m_status)) \
 /* converged => feasible within epsilon at the returned point */ \
 __CPROVER_ensures(NV_RET.m_status == NVE_solver_status_converged ==> (NV_RET.valid && NV_RET.feas <= nv_epsilon)) \
 /* the stored constraint values belong to the returned point, value/gradient are one evaluation there */ \
 __CPROVER_ensures(NV_RET.cons_ver == NV_RET.ver && NV_RET.eval_ver == NV_RET.ver)
 #define NV_LOOP_al_do_minimize_1 \
-__CPROVER_assigns(outer, bstate, ro, old_criterion, nv_ver_counter) \
+__CPROVER_assigns(outer, bstate, ro, old_criterion, nv_ver_counter, nv_miu_nonneg) \
 __CPROVER_loop_invariant(0 <= outer && outer <= max_outers && nv_ver_counter < 4000 + 2 * (uint64_t)outer) \
 __CPROVER_loop_invariant(bstate.m_status == NVE_solver_status_max_iters && bstate.cons_ver == bstate.ver && bstate.eval_ver == bstate.ver && bstate.ver <= nv_ver_counter) \
 __CPROVER_loop_invariant(bstate.valid ==> bstate.feas <= old_criterion) \
+/* the preconditions of make_criterion are loop invariants */ \
+__CPROVER_loop_invariant(ro > 0.0 && nv_miu_nonneg != 0) \
 __CPROVER_decreases(max_outers - outer)
